@@ -249,6 +249,15 @@ def run_case(case, ctx, acc):
     if case['kind'] == 'real':
         wins = wins[:2]
     oracle(factory, case, acc, grid, wins)
+    if case['kind'] == 'lattice' and len(case['pkas']) >= 1:
+        # the same container queried again after its pKa values were changed through the API: every profile follows the current values
+        m = factory(())
+        m.get_charge_profile(conformation='AVR', grid=grid)
+        m.get_folding_profile(conformation='AVR', grid=grid)
+        m.get_pi()
+        pf.set_pkas(m, [v + 1.5 for v in case['pkas']][::-1] if len(set(case['sig'])) == 1 else [v - 2.0 for v in case['pkas']])
+        oracle(factory, dict(case, second_query='after-api-edit'), acc, grid, [], api_mol=m)
+        acc.n += 1
     if case['kind'] == 'real':      # the same relations for every single conformation (API level)
         m = factory(())
         from . import c09
